@@ -959,7 +959,8 @@ struct ListSys : Sys
 // XalanDeque<Tracked>, block size 2
 
 enum { D_PUSH, D_POP, D_CLEAR, D_RESIZE, D_SET, D_COPY, D_ASSIGN_FROM_B, D_ASSIGN_TO_B, D_ASSIGN_SELF, D_SWAP };
-struct DequeSys : Sys
+template <int BSB>
+struct DequeSysT : Sys
 {
     typedef XalanDeque<Tracked> D;
     D* A; D* B;
@@ -982,7 +983,7 @@ struct DequeSys : Sys
         }
         return t;
     }
-    DequeSys() { A = new D(g_mm, 0, 2); B = new D(g_mm, 3, 2); b.assign(3, 0); }   // B: the initial-size constructor
+    DequeSysT() { A = new D(g_mm, 0, 2); B = new D(g_mm, 3, BSB); b.assign(3, 0); }   // B: the initial-size constructor, its own block size
     const std::vector<OpDesc>& ops() const { return table(); }
     bool enabled(int op) const
     {
@@ -1056,8 +1057,9 @@ struct DequeSys : Sys
         CHECK(f, Tracked::live == (long)(a.size() + b.size()), "balance", istr(Tracked::live) + " elements alive, the two deques hold " + istr(a.size() + b.size()));
     }
     void finish(Fail& f) { delete A; delete B; A = B = 0; checkWorld(f); }
-    static Sys* make() { return new DequeSys(); }
+    static Sys* make() { return new DequeSysT<BSB>(); }
 };
+typedef DequeSysT<2> DequeSys;
 
 // =====================================================================================================================
 // XalanDOMString against std::u16string
@@ -1926,6 +1928,7 @@ static const Container g_containers[] = {
     { "vector", 5, 6, &VecSys::make, "XalanVector<Tracked> x2, values 0..2, positions begin/mid/end" },
     { "list", 7, 10, &ListSys::make, "XalanList<Tracked> x2, values 0..2, positions begin/mid/end" },
     { "deque", 7, 9, &DequeSys::make, "XalanDeque<Tracked> block size 2 (A empty, B built with initialSize 3)" },
+    { "deque_mixed", 6, 8, &DequeSysT<3>::make, "XalanDeque<Tracked> A block size 2, B block size 3 (assignment and swap between deques of different block sizes)" },
     { "string", 5, 6, &StrSys::make, "XalanDOMString x2 against std::u16string, chars a, b, unpaired high surrogate; positions begin/mid/end; counts 0,1,2" },
     { "string_pool", 6, 8, &PoolSys::make, "XalanDOMStringPool block size 2 over XalanDOMStringHashTable with 2 buckets of initial size 1" },
     { "bitmap", 5, 6, &BitmapSys::make, "XalanBitmap of 10 bits (2 units), bits 0,7,8,9" },
